@@ -93,6 +93,17 @@ def reads_report_what_they_return(ctx):
     cs = [c for c in own_calls(f.node) if (dotted(c.func) or '').endswith('invoke_progress_callbacks')]
     ok = len(cs) == 1 and q.guards_imply(q.guards(cs[0]), 'self._callbacks_enabled')
     ctx.ob(f, 'seek(): report only while self._callbacks_enabled', ok, 'rewinds while signing would be subtracted')
+    # the legacy sibling (s3transfer/__init__.py ReadFileChunk): read and seek report under the same switch, so that what a
+    # suppressed read did not add a suppressed (or unsuppressed) rewind does not take away
+    lg = ctx.cls('__init__.ReadFileChunk')
+    for mname in ('read', 'seek'):
+        m = lg.methods.get(mname)
+        ctx.need(m is not None, f'legacy ReadFileChunk.{mname} vanished')
+        cbs = [c for c in own_calls(m.node) if (dotted(c.func) or '') == 'self._callback']
+        ok = len(cbs) == 1 and q.guards_imply(q.guards(cbs[0]), 'self._callback_enabled') and q.guards_imply(q.guards(cbs[0]), 'self._callback is not None')
+        ctx.ob(m, f'legacy {mname}(): self._callback(...) only while self._callback_enabled', ok,
+               'reads and rewinds must be reported under the same switch: otherwise bytes botocore reads while preparing the request are counted, or their rewind is '
+               'subtracted although they were never added (negative running sum)')
     if len(cs) == 1:
         amt = kwarg(cs[0], 'bytes_transferred') or (cs[0].args[1] if len(cs[0].args) > 1 else None)
         from ..ir import canon_text
